@@ -1528,11 +1528,11 @@ class P(Prop):
                 [list(x) for x in segs], float(got), arg, float(best))
             if lost:
                 msg += " — minCircle returned None for the segment(s) %s, which the documented criterion rewards" % (lost,)
-            elif out.get("loose_after"):
+            elif out.get("loose_after") or out.get("loose"):
                 if FINDING_LOOSE not in self.listed:
                     return None
-                msg += " — minCircle returned a circle that does not enclose the segment(s) %s in the final filter" % (
-                    [x[:2] for x in out["loose_after"]],)
+                msg += " — minCircle returned a circle that does not enclose the segment(s) %s (row loops) / %s (final filter)" % (
+                    [x[:2] for x in out.get("loose", [])], [x[:2] for x in out.get("loose_after", [])])
             return msg
         return None
 
